@@ -14,6 +14,20 @@ func init() {
 	register("H_C15_Genesis", H_C15_Genesis)
 }
 
+func nBidsOf(st *aState) int {
+	if st == nil {
+		return 0
+	}
+	return len(st.bids)
+}
+
+func nQueuesOf(st *aState) int {
+	if st == nil {
+		return 0
+	}
+	return len(st.queues)
+}
+
 // sameRecords compares every record of one auction in two environments.
 func sameRecords(label string, a, b recSnap) {
 	assertFrame(label, a, b)
@@ -28,15 +42,22 @@ func H_C15_Genesis() {
 	sp := pickSpec("a.", 0)
 	sp.nUsers = nd.Param("users", 2)
 	st := buildAuction(e, "a.", sp)
-	setAuctionSeq(e, 1)
-	_ = st
+	// a second, later auction with its own bid ids starting at 1 again (parameter second=0 turns it off)
+	second := nd.Param("second", 1) == 1
+	nAuctions := 1
+	var stB *aState
+	if second {
+		stB = buildAuction(e, "b.", bystanderSpec("b.", 1))
+		nAuctions = 2
+	}
+	setAuctionSeq(e, uint64(nAuctions))
 
 	gs, err := fundraising.ExportGenesis(e.Ctx, e.K)
 	nd.Assert("C15.export-succeeds", err == nil && gs != nil)
 	if err != nil || gs == nil {
 		return
 	}
-	nd.Assert("C15.export-lists-every-record", len(gs.AuctionList) == 1 && len(gs.BidList) == len(st.bids) && len(gs.VestingQueueList) == len(st.queues))
+	nd.Assert("C15.export-lists-every-record", len(gs.AuctionList) == nAuctions && len(gs.BidList) == len(st.bids)+nBidsOf(stB) && len(gs.VestingQueueList) == len(st.queues)+nQueuesOf(stB))
 	// (a) the module's own validation accepts what it exported
 	// listed finding: the last matched-bid count of a batch auction in the middle of extended rounds is not part of the genesis
 	vErr := gs.Validate()
@@ -53,6 +74,12 @@ func H_C15_Genesis() {
 	r1, r2 := snapRecords(e, 0), snapRecords(e2, 0)
 	knownLastLen = "C15-matchedlen-not-exported"
 	sameRecords("C15.import", r1, r2)
+	nd.Assert("C15.import-bid-counter", r1.hasSeq == r2.hasSeq && r1.bidSeq == r2.bidSeq)
+	if second {
+		b1, b2 := snapRecords(e, 1), snapRecords(e2, 1)
+		sameRecords("C15.import-second-auction", b1, b2)
+		nd.Assert("C15.import-bid-counter", b1.hasSeq == b2.hasSeq && b1.bidSeq == b2.bidSeq)
+	}
 	s1, _ := e.K.AuctionSeq.Peek(e.Ctx)
 	s2, _ := e2.K.AuctionSeq.Peek(e2.Ctx)
 	nd.Assert("C15.import-auction-sequence", s1 == s2)
@@ -66,7 +93,7 @@ func H_C15_Genesis() {
 	if cont == 0 || (cont == 1 && !(sp.batch && sp.status == types.AuctionStatusStarted)) {
 		return
 	}
-	for _, a := range trackedAccounts(0) {
+	for _, a := range trackedAccounts(0, 1) {
 		for _, d := range []string{denomSell, denomPay, denomFee} {
 			e2.SetBal(a, d, e.Bal(a, d))
 		}
@@ -85,6 +112,9 @@ func H_C15_Genesis() {
 		_ = l1
 		_ = l2
 		sameRecords("C15.continuation", snapRecords(e, 0), snapRecords(e2, 0))
+		if second {
+			sameRecords("C15.continuation-second-auction", snapRecords(e, 1), snapRecords(e2, 1))
+		}
 		nd.Cover("continuation")
 	}
 	_ = collections.Join[uint64, uint64]
